@@ -1921,7 +1921,7 @@ fn c07_grids(args: &Args, rep: &mut Report, w: &Watch) {
 }
 
 fn c07_stream(args: &Args, rep: &mut Report, w: &Watch, from: u64, skips: &BTreeSet<u64>) {
-    let n = rep.share(1_200_000, 12_000_000);
+    let n = rep.share(900_000, 12_000_000);
     for i in from..n {
         if i % 2000 == 0 || i == from {
             *SNAPSHOT.lock().unwrap() = Some(rep.snapshot());
